@@ -42,6 +42,18 @@ add("C14","F13b","restore kept the block cache of the discarded timeline (table 
     [{"Checkpoint":{"n":0}},txn(setv(k0,1,cls=0)),"FlushAll",{"Compact":{"rounds":1}},begin(1,"RO"),get(1,k0),{"DropTxn":{"slot":1}},{"Restore":{"n":0}},txn(sdel(k0)),"FlushAll"])
 add("C14","F13a","restore kept the VLog writer/handles/next_file_id of the discarded timeline",cfg(vlog=True),P2,
     [txn(setv(k0,1,cls=4)),{"Checkpoint":{"n":0}},txn(setv(k1,5,cls=4)),"FlushAll",{"Restore":{"n":0}},txn(setv(k0,2,cls=4)),"FlushAll",{"Checkpoint":{"n":1}}])
+VC=dict(versioning=True,vlog=True,vlog_threshold=0)
+def hist(slot,lo,hi,rev=False,tomb=False): return {"History":{"hi":hi,"limit":None,"lo":lo,"rev":rev,"slot":slot,"tombstones":tomb,"ts_range":None}}
+add("C10","F26","backward history traversal stopped at the first user key (from the upper end) that yields no entry",cfg(**VC),P2,
+    [txn(setv(k0,1)),txn(dele(k1)),begin(1,"RO"),hist(1,"Min","Max",rev=True),hist(1,"Min","Max",rev=True,tomb=True)])
+add("C10","F12","versioning: a reader open during compaction made compaction drop retained versions",cfg(**VC),P2,
+    [begin(1),txn(setv(k0,1)),txn(setv(k0,2)),txn(setv(k0,3)),"FlushAll",{"Compact":{"rounds":1}}])
+add("C10","F11","versioning: a REPLACE anywhere made every non-REPLACE version of the key stale, also newer ones",cfg(**VC),P2,
+    [txn({"k":k0,"op":{"Replace":{"cls":10,"raw":0,"tag":1}},"ts":None}),txn(setv(k0,2)),txn(setv(k0,3)),txn(setv(k0,4)),"FlushAll",{"Compact":{"rounds":1}}])
+add("C10","F20","versioning: compaction dropped an older hard-delete marker but kept the versions it had erased",cfg(**VC),P2,
+    [txn(setv(k0,1)),txn(setv(k0,2)),txn(dele(k0)),txn(setv(k0,4)),"FlushAll",{"Compact":{"rounds":1}}])
+add("C10","F11b","versioning: a reader that began before a REPLACE lost the versions below it after compaction",cfg(**VC),P2,
+    [txn(setv(k0,1)),txn(setv(k0,2)),begin(1),txn({"k":k0,"op":{"Replace":{"cls":10,"raw":0,"tag":3}},"ts":None}),"FlushAll",{"Compact":{"rounds":1}},hist(1,"Min","Max")])
 root=os.path.join(os.path.dirname(os.path.abspath(__file__)),'..','replays')
 for prop,fid,body in R:
     d=os.path.join(root,prop); os.makedirs(d,exist_ok=True)
